@@ -4,7 +4,7 @@
     used, what Open returned); the model has to reproduce the packet bytes, the arguments
     the implementation passed to Open, and the result. *)
 From Coq Require Import List ZArith Bool String.
-From V Require Import Lib.Corr Lib.Hex Gen.Params Wire.Varint Wire.Headers PktProt.PktNum PktProt.Protect PktProt.ProtectPack PktProt.ProtectLong.
+From V Require Import Lib.Corr Lib.Hex Gen.Params Wire.Varint Wire.Headers PktProt.PktNum PktProt.Protect PktProt.ProtectPack PktProt.ProtectLong PktProt.ChaCha.
 Import ListNotations.
 Open Scope Z_scope.
 
@@ -20,6 +20,8 @@ Inductive case :=
              (hdrLen pktLen length : Z)
     (* a long-header packet built by getLongHeader + appendLongHeaderPacket, followed by coalesced
        bytes, cut out again by wire.ParsePacket: header fields, offset of the packet number, packet length *)
+| ChaChaMaskCase (hpkey sample mask : string)
+    (* the raw header-protection mask of the ChaCha20 suite, recomputed by the Gallina ChaCha20 *)
 | UnprotCase (long : bool) (hdrLen largest : Z) (data : string)
              (sample mask : string)                                  (* DecryptHeader oracle; "" if not called *)
              (open_call : option (Z * Z * string * string))          (* pn, kp, ad, ciphertext handed to Open *)
@@ -40,6 +42,7 @@ Inductive obs :=
 | ProtObs (packet : list Z)
 | PackObs (pnLen : Z) (packet : list Z)
 | LongDgObs (packet : option (list Z)) (parsed : Z * option header * list Z * list Z)
+| MaskObs (mask : list Z)
 | UnprotObs (call : option (Z * Z * list Z * list Z)) (cls : Z) (res : option (Z * Z * Z * Z * list Z)).
 
 Definition model_obs (c : case) : obs :=
@@ -61,6 +64,7 @@ Definition model_obs (c : case) : obs :=
     let seal := fun (_ _ : Z) (_ _ : list Z) => hx ct in
     LongDgObs (pack_long_datagram seal (mask_tab (hx sample) (hx mask)) ty v (hx src) (hx dst) (hx tok) pn la (hx ack) (hx frames) (Z.to_nat extra))
               (parse_packet (hx packet ++ hx rest))
+  | ChaChaMaskCase k sample _ => MaskObs (chacha_mask (hx k) (hx sample))
   | UnprotCase long hdrLen largest data sample mask _ open_res _ _ =>
     match unprotect_pre (mask_tab (hx sample) (hx mask)) long (Z.to_nat hdrLen) largest (hx data) with
     | inl e => UnprotObs None (cls_of e) None
@@ -80,6 +84,7 @@ Definition check_case (c : case) : bool :=
     (hType h =? ty) && (hVersion h =? v) && zeqb_list (hSrc h) (hx src) && zeqb_list (hDst h) (hx dst) &&
     zeqb_list (hToken h) (if ty =? H_PacketTypeInitial then hx tok else []) &&
     (hParsedLen h =? hdrLen) && (zlen pkt =? pktLen) && (hLength h =? len)
+  | ChaChaMaskCase _ _ mask, MaskObs m => zeqb_list m (hx mask)
   | UnprotCase _ _ _ _ _ _ call _ cls res, UnprotObs call' cls' res' =>
     (cls =? cls') &&
     match call, call' with
